@@ -111,11 +111,25 @@ package plumbing
 //gvc:  ensures same: same_string(result, r)
 //gvc:end
 
-// IsSafe is a function of the name (its byte-level characterisation is not
-// yet under contract: range-over-func iteration is outside the subset).
+// IsSafe against git's refname_is_safe (refs.c), the direction storage safety
+// needs: a name IsSafe accepts is either a one-level name spelled with A-Z and
+// '_' only, or starts with "refs/", has something after it, holds no backslash
+// there, and none of the '/'-separated components after "refs/" is empty, "."
+// or ".." (spec_split_*: the components strings.Split yields). spec_issafe
+// names the verdict for the taint rules of the reference storage (granted: it
+// is the function's own result).
 //gvc:func ReferenceName.IsSafe
-//gvc:  trusted
-//gvc:  ensures fn: result == spec_issafe(strid(r))
+//gvc:  props C14
+//gvc:  theory int
+//gvc:  opt coarse
+//gvc:  opt frame args
+//gvc:  loop 1 invariant comps: spec_nodots(arr(r), off(r) + 5, len(r) - 5, it1)
+//gvc:  loop 2 invariant upper: forall(k, 0, i, (s[k] >= 'A' && s[k] <= 'Z') || s[k] == '_')
+//gvc:  ensures pseudo: result && !has_prefix(r, "refs/") ==> len(r) > 0 && forall(k, 0, len(r), (r[k] >= 'A' && r[k] <= 'Z') || r[k] == '_')
+//gvc:  ensures under: result && has_prefix(r, "refs/") ==> len(r) > 5
+//gvc:  ensures noback: result && has_prefix(r, "refs/") ==> forall(k, 0, len(r) - 5, r[5 + k] != 0x5c)
+//gvc:  ensures nodots: result && has_prefix(r, "refs/") ==> spec_nodots(arr(r), off(r) + 5, len(r) - 5, spec_split_n(arr(r), off(r) + 5, len(r) - 5))
+//gvc:  grants fn: result == spec_issafe(strid(r))
 //gvc:end
 
 //gvc:func (*Reference).Type
